@@ -10,7 +10,7 @@ rsync -a --exclude .git /repo/ "$D/"
 TS=$(python3 -c "
 import random,sys
 r=random.Random(int(sys.argv[1]))
-T='rename invert swapeq negform demorgan parens constextract hoistcond guard2else switch2if retlocal varform reorder splitinit mergeinit hoistarg ret2else splitand lencmp incr boolret predfunc rangeidx elsenest swapand kvorder caseorder renamefile extractblock countloop'.split()
+T='rename invert swapeq negform demorgan parens constextract hoistcond guard2else switch2if retlocal varform reorder splitinit mergeinit hoistarg ret2else splitand lencmp incr boolret predfunc rangeidx elsenest swapand kvorder caseorder renamefile extractblock countloop flag2counter labelcontinue joinvar'.split()
 print(' '.join(r.sample(T,int(sys.argv[2]))))" "$S" "$K")
 applied=""
 for t in $TS; do
